@@ -521,6 +521,156 @@ func limitGrowth(emit func(string), L int, perConn bool) {
 	emit("reasm flushall n 1")
 }
 
+// ageCase: the age-based flush.  Behind a gap, a few chunks arrive in an order that differs from their sequence
+// order (so that a newer page can sit in front of an older one), with distinct timestamps; then
+// FlushWithOptions with a cut-off T placed at / between / around the arrival times (no close cut-off), the gap
+// is filled, FlushAll.
+func ageCase(r *lib.Rand, emit func(string)) {
+	emit("reset")
+	n := 30 + r.Intn(90)
+	big := r.Chance(8)
+	if big {
+		n = 2500 + r.Intn(2500)
+	}
+	S := r.Bytes(n)
+	isn := pickISN(r, n)
+	conn, dir := 1+r.Intn(3), r.Intn(2)
+	emit(fmt.Sprintf("reasm stream %d %d %d %s", conn, dir, isn, lib.Hex(S)))
+	ts := 1
+	seg := func(off, l int, flags string) {
+		seq := isn + 1 + uint32(off)
+		if flags == "S" {
+			seq = isn
+		}
+		emit(fmt.Sprintf("reasm seg %d %d %d %s %d 1 n 1 %s", conn, dir, seq, flags, ts, lib.Hex(S[off:off+l])))
+	}
+	synFirst := r.Chance(85)
+	if synFirst {
+		seg(0, 0, "S")
+	}
+	gap := 1 + r.Intn(6)
+	// chunks behind the gap, some contiguous, some separated
+	type ch struct{ off, l int }
+	var chunks []ch
+	o := gap
+	k := 2 + r.Intn(4)
+	for i := 0; i < k && o < n; i++ {
+		l := 1 + r.Intn(6)
+		if big && i == 0 {
+			l = 1901 + r.Intn(500)
+		}
+		if o+l > n {
+			l = n - o
+		}
+		chunks = append(chunks, ch{o, l})
+		o += l
+		if r.Chance(60) {
+			o += 1 + r.Intn(4)
+		}
+	}
+	order := make([]int, len(chunks))
+	for i := range order {
+		order[i] = i
+	}
+	if r.Chance(80) {
+		for i := len(order) - 1; i > 0; i-- {
+			j := r.Intn(i + 1)
+			order[i], order[j] = order[j], order[i]
+		}
+	}
+	var times []int
+	for _, i := range order {
+		ts += 3 + r.Intn(10)
+		times = append(times, ts)
+		seg(chunks[i].off, chunks[i].l, "A")
+	}
+	flush := func() {
+		var T int
+		switch r.Intn(5) {
+		case 0:
+			T = times[r.Intn(len(times))]
+		case 1:
+			T = times[r.Intn(len(times))] + 1
+		case 2:
+			T = times[0] - 1
+		case 3:
+			T = ts + 5
+		default:
+			T = times[0] + r.Intn(ts-times[0]+2)
+		}
+		emit(fmt.Sprintf("reasm flush %d 0 n 1", T))
+	}
+	flush()
+	if r.Chance(40) {
+		ts += 2
+		flush()
+	}
+	if !synFirst && r.Chance(50) {
+		ts++
+		seg(0, 0, "S")
+	}
+	if r.Chance(70) { // fill the gap
+		ts++
+		seg(0, gap, "A")
+	}
+	if r.Chance(30) {
+		flush()
+	}
+	emit("reasm flushall n 1")
+}
+
+// staleCase: a half connection whose ONLY queued page is popped (by an age flush that keeps the connection
+// open, or by a page limit), then further out-of-order segments, then FlushAll: the queue must be rebuilt from
+// an empty list (first == last == nil).
+func staleCase(r *lib.Rand, emit func(string)) {
+	emit("reset")
+	byLimit := r.Chance(35)
+	if byLimit {
+		if r.Bool() {
+			emit("reasm opts 1 0")
+		} else {
+			emit("reasm opts 0 1")
+		}
+	}
+	n := 40 + r.Intn(40)
+	S := r.Bytes(n)
+	isn := pickISN(r, n)
+	conn, dir := 1+r.Intn(3), r.Intn(2)
+	emit(fmt.Sprintf("reasm stream %d %d %d %s", conn, dir, isn, lib.Hex(S)))
+	ts := 1
+	seg := func(off, l int, flags string) {
+		seq := isn + 1 + uint32(off)
+		if flags == "S" {
+			seq = isn
+		}
+		ts++
+		emit(fmt.Sprintf("reasm seg %d %d %d %s %d 1 %s 1 %s", conn, dir, seq, flags, ts, []string{"n", "n", "n", "e1", "a0"}[r.Intn(5)], lib.Hex(S[off:off+l])))
+	}
+	if r.Chance(90) {
+		seg(0, 0, "S")
+	}
+	a := 3 + r.Intn(5)
+	la := 1 + r.Intn(4)
+	seg(a, la, "A") // the single queued page (popped at once when a limit of 1 is set)
+	if !byLimit {
+		emit(fmt.Sprintf("reasm flush %d 0 n 1", ts+5)) // releases it, the connection stays open
+	}
+	b := a + la + 1 + r.Intn(4)
+	lb := 1 + r.Intn(4)
+	seg(b, lb, "A") // queued into the empty list
+	if r.Chance(50) {
+		c := b + lb + 1 + r.Intn(4)
+		seg(c, 1+r.Intn(4), "A")
+		if r.Chance(50) { // one in front of it
+			seg(b+lb, 1, "A")
+		}
+	}
+	if r.Chance(50) {
+		emit(fmt.Sprintf("reasm flush %d 0 n 1", ts+5))
+	}
+	emit("reasm flushall n 1")
+}
+
 func gen(r *lib.Rand, tier string, emit func(string)) {
 	thorough := tier == "thorough"
 	seqCase(r.Fork(), emit, map[bool]int{false: 2000, true: 50000}[thorough])
@@ -529,8 +679,16 @@ func gen(r *lib.Rand, tier string, emit func(string)) {
 	limitGrowth(emit, 10, false)
 	limitGrowth(emit, 3, true)
 	n1, n2, n3 := 2500, 700, 600
+	n4, n5 := 400, 300
 	if thorough {
 		n1, n2, n3 = 40000, 10000, 8000
+		n4, n5 = 6000, 4000
+	}
+	for i := 0; i < n5; i++ {
+		staleCase(r.Fork(), emit)
+	}
+	for i := 0; i < n4; i++ {
+		ageCase(r.Fork(), emit)
 	}
 	for i := 0; i < n1; i++ {
 		streamCase(r.Fork(), tier, emit, 1)
